@@ -131,6 +131,8 @@ class Interp:
         self._fid = itertools.count(1)
         self.site_oids = {}
         self._jc = {}
+        self.slice_of = {}
+        self.parsed_from = {}
         self.seg = {}        # StrV ident -> segment list (symbolic text: literals, zero-padded numbers, ...)
         self.opaque_callables = False
         self._leqmap = {}
